@@ -32,7 +32,7 @@ func init() { families["ft"] = func() Family { return &ftFam{} } }
 
 func (f *ftFam) Reseed(r *rand.Rand) { f.rng = r }
 
-func hx(s string) string { h := sha256.Sum256([]byte(s)); return fmt.Sprintf("%x", h[:]) }
+func hx(s string) string                     { h := sha256.Sum256([]byte(s)); return fmt.Sprintf("%x", h[:]) }
 func ownerAddr(path, acctHash string) string { return hx("o" + path + acctHash) }
 func viewerID(t, user string) string         { return hx("v" + t + user) }
 func editorID(t, user string) string         { return hx("e" + t + user) }
